@@ -1,4 +1,6 @@
 import Mp4ff.Model.Boxes
+import Mp4ff.Model.BoxGen
+import Mp4ff.Model.Tree
 import Mp4ff.Driver.Util
 namespace Mp4ff.Driver.C01
 open Mp4ff Mp4ff.Boxes Mp4ff.Driver
@@ -22,6 +24,18 @@ def dispatch (op : String) (args : List String) : Option String :=
       match roundTrip bs with
       | .ok _ _ dc => showNats dc
       | _ => "n/a"
+  -- model-based generation: a box drawn from the layout term of `ty` (see Model/BoxGen.lean)
+  | "box.gen", [ty, seed] => seed.toNat?.map fun n =>
+      match BoxGen.genBox ty n with
+      | some bs => toHex bs
+      | none => "none"
+  -- nested round trip (Model/Tree.lean)
+  | "tree.rt", [h] => (fromHex h).map fun bs =>
+      match TreeRT.roundTripTree bs with
+      | .unmodelled => "unmodelled"
+      | .rejected => "rej"
+      | .encFails => "encfail"
+      | .ok enc _ => s!"size={enc.length} enc={toHex enc}"
   | "box.types", [] => some (" ".intercalate (specs.map (·.1)))
   | _, _ => none
 
